@@ -572,6 +572,15 @@ def rule_total(ctx):
         dv = {kw} if kw else set()
         it = walk_shallow(node) if not isinstance(node, ast.Lambda) else ast.walk(node.body)
         found = list(scan_partial_ops(cf, it, tainted, dict_vars=dv, producer_keys=prod_keys))
+        # recursion whose depth follows the data: f(x) calling f(<slice of x>) - RecursionError on long/nested input
+        if not isinstance(node, ast.Lambda):
+            for c in walk_shallow(node):
+                if isinstance(c, ast.Call) and protecting_try(c) is None:
+                    nm = c.func.attr if isinstance(c.func, ast.Attribute) else getattr(c.func, "id", None)
+                    if nm == cf.name and any(isinstance(x, ast.Subscript) and isinstance(x.slice, ast.Slice) and isinstance(x.value, ast.Name)
+                                             and x.value.id in pset for a in c.args for x in ast.walk(a)):
+                        found.append((c, "`%s` recurses on a slice of its own argument: the recursion depth follows the text of the line "
+                                         "(RecursionError on deeply nested input)" % unparse(c)))
         n += 1
         site = "%s#closure" % q
         if found:
